@@ -78,9 +78,16 @@ package clip
 // ---------------------------------------------------------------- the ring clipper (Sutherland-Hodgman passes)
 // the edge mask takes the values 1,2,4,8; every pass starts from a non-empty ring; intersect is
 // always called with one edge bit
+// Each pass leaves only vertices on the inner side of its own edge (kept vertices pass the test, new
+// ones are put exactly on the edge by intersect); the four passes are unrolled (edge = 1, 2, 4, 8), so
+// after the last one no vertex of the result lies beyond the top edge — exactly; for the three earlier
+// edges the property itself only holds up to rounding and nothing is claimed.
+//@ spec insideE(b orb.Bound, p orb.Point, e int) bool = ite(e == 1, !(p[0] < b.Min[0]), ite(e == 2, p[0] < b.Min[0] || !(p[0] > b.Max[0]), ite(e == 4, !(p[1] < b.Min[1]), p[1] < b.Min[1] || !(p[1] > b.Max[1]))))
 //@ func ring(box, in)
-//@   loop 1: invariant (edge == 1 || edge == 2 || edge == 4 || edge == 8 || edge == 16) && len(in) >= 1
+//@   ensures forall k :: 0 <= k && k < len(result) ==> insideE(box, result[k], 8)
+//@   loop 1: unroll 4
 //@   loop 2: invariant (edge == 1 || edge == 2 || edge == 4 || edge == 8) && 0 <= i#1 && i#1 <= loopTo && loopTo == len(in) && loopTo >= 1
+//@   loop 2: invariant forall k :: 0 <= k && k < len(out) ==> insideE(box, out[k], edge)
 
 //@ func LineString(b, ls, opts)
 //@   requires forall k :: 0 <= k && k < len(opts) ==> opts[k] != nil
